@@ -573,7 +573,7 @@ def _field_is(p: Path, site: Site, n: int) -> bool:
             names = {a[1] for a in _all_atoms(d) if a[0] == "var"}
             if any("field_number" in x or "fnumber" in x for x in names) and d.terms.get((), 0) in (-n, n):
                 return True
-            a_calls = [a for a in _all_atoms(d) if a[0] == "call" and a[1] == "F"]
+            a_calls = [a for a in _all_atoms(d) if a[0] in ("call", "mcall") and a[1] == "F"]
             if a_calls and d.terms.get((), 0) in (-n, n):
                 return True
     return False
